@@ -108,7 +108,7 @@ type Peer struct {
 	Resumed           bool     // client: the server echoed our session id, i.e. accepted the ticket
 	sentSID           []byte
 	keySuite          uint16
-	Lenient           bool // do not stop at a wrong peer Finished
+	Lenient           bool     // do not stop at a wrong peer Finished
 	RawIn             [][]byte // every record received, as on the wire (header and body)
 	RecLens           []int    // plaintext length of every protected record received
 	Fragment          int      // >0: cut outgoing handshake messages into records of at most this many bytes
@@ -762,9 +762,9 @@ func (p *Peer) digest(m []byte) error {
 // Item is one thing a script sends.
 type Item struct {
 	Name  string
-	Rec   byte                   // record type: RecHS (Build returns a framed message), RecCCS, RecApp, RecAlert
-	Build func(p *Peer) []byte   // evaluated when the item is sent, so it sees the transcript so far
-	Raw   bool                   // send Build()'s bytes as a record body without protection and without transcript
+	Rec   byte                 // record type: RecHS (Build returns a framed message), RecCCS, RecApp, RecAlert
+	Build func(p *Peer) []byte // evaluated when the item is sent, so it sees the transcript so far
+	Raw   bool                 // send Build()'s bytes as a record body without protection and without transcript
 }
 
 func (p *Peer) rnd(n int) []byte { b := make([]byte, n); io.ReadFull(p.Rand, b); return b }
